@@ -358,5 +358,43 @@ pub fn find_vertices(tracks: Vec<Track>) -> VertexingResult {
     )
 }
 
+#[cfg(alpha_g_verif)]
+impl Cluster {
+    pub(crate) fn verif_from_points(points: Vec<SpacePoint>) -> Self {
+        Cluster(points)
+    }
+}
+
+#[cfg(alpha_g_verif)]
+impl Track {
+    pub(crate) fn verif_from_params(p: [f64; 6], t_inner: f64, t_outer: f64) -> Self {
+        Track {
+            helix: Helix {
+                x0: Length::new::<meter>(p[0]),
+                y0: Length::new::<meter>(p[1]),
+                z0: Length::new::<meter>(p[2]),
+                r: Length::new::<meter>(p[3]),
+                phi0: Angle::new::<radian>(p[4]),
+                h: Length::new::<meter>(p[5]),
+            },
+            t_inner,
+            t_outer,
+        }
+    }
+    pub(crate) fn verif_params(&self) -> [f64; 6] {
+        [
+            self.helix.x0.get::<meter>(),
+            self.helix.y0.get::<meter>(),
+            self.helix.z0.get::<meter>(),
+            self.helix.r.get::<meter>(),
+            self.helix.phi0.get::<radian>(),
+            self.helix.h.get::<meter>(),
+        ]
+    }
+    pub(crate) fn verif_closest_t(&self, p: SpacePoint, tolerance: f64, max_num_iter: usize) -> f64 {
+        self.helix.closest_t(p, tolerance, max_num_iter)
+    }
+}
+
 #[cfg(test)]
 mod tests;
